@@ -262,7 +262,7 @@ Fixpoint parse (fuel : nat) (ts : list token) : option (sexp * list token) :=
   | S f =>
     match ts with
     | TA a :: r => Some (SA a, r)
-    | TL :: r => items (parse f) (S (length r)) r []
+    | TL :: r => items (parse f) f r []     (* fuel exceeds the number of tokens left, hence the number of items *)
     | _ => None
     end
   end.
